@@ -14,8 +14,9 @@ Line protocol for the C18 model (`Model/WoehlerAnalysis.lean`) at `Float`.  A da
   c18.lik    SD TS k_1 ND TN tests…     -> fin inf                   (hex | -inf)
   c18.mlinf  r1 r2 tests…               -> k_1 ND SD TN TS           (`maxLikeInf` with the optimiser answering `(r1, r2)`)
   c18.mlinfobj p1 p2 tests…             -> value                     (objective of MaxLikeInf at the relative point; hex | -inf)
-  c18.mlfull r_k1 r_ND r_SD r_TN r_TS tests… -> mode k_1 ND SD TN TS (`maxLikeFull` with the optimiser answering `r`; mode =
-                                                                      norun | fixTS | free: which parameters the code fixes)
+  c18.mlfull r_k1 r_ND r_SD r_TN r_TS tests… -> mode x0(5) k_1 ND SD TN TS (`maxLikeFull` with the optimiser answering `r`; mode =
+                                                                      norun | fixTS | free: which parameters the code fixes;
+                                                                      x0 = the start vector in scaled variables: 1, or 0 for a zero start)
   c18.mlfullobj r_k1 r_ND r_SD r_TN r_TS tests… -> value             (objective of MaxLikeFull at the relative point)
 
 `Φ` is the driver's own distribution function (`Driver/FailureProb.lean`), `Φ⁻¹` its inverse by bisection.
@@ -120,7 +121,7 @@ def handle : List String → Option String
     let d ← parseTests rest
     let dd := irrelevantRunoutsDropped d
     let mode := if (runouts dd).isEmpty then "norun" else if fewMixedLevels dd then "fixTS" else "free"
-    some s!"{mode} {showCurve (maxLikeFull quantile phi (fun _ => r) d)}"
+    some s!"{mode} {showCurve (fullStart (elementaryCore quantile dd))} {showCurve (maxLikeFull quantile phi (fun _ _ => r) d)}"
   | "c18.mlfullobj" :: a :: b :: c :: e :: f :: rest => do
     let r ← parseRel a b c e f
     let d ← parseTests rest
